@@ -363,6 +363,11 @@ PINNED = [   # the minimal failing input of every known finding (so that the fin
     ("vm-param-control-flow", "int f(int n, int c, int (*p)[c ? n : 1]) { return sizeof(*p); }\n"
                               "int g(int n, int c, int (*p)[(n && c) + 1][(n || c) + 1]) { int loc = n; { int arr[3] = {1, 2, 3}; loc += arr[1]; } return (int)sizeof(*p) + loc; }\n"
                               "int h(int n, int c, int a[c ? n : 1][n]) { long t = 0; while (c--) { int z = c; t += z; } return (int)sizeof(a[0]) + (int)t; }\n"),
+    # objects declared before their struct/union type is completed (DataAlign through the H6-lite events)
+    ("tentative-before-completion", "struct S s; typedef struct T t; t u; union U v; static struct S w; int a[];\n"
+                                    "struct S { long a; int b; }; struct T { double d; char c; }; union U { int i; double d; }; int a[3];\n"
+                                    "extern struct S x; struct S x; _Alignas(16) char y[3]; _Thread_local long z; char *str = \"abc\";\n"
+                                    "long use(void) { return w.a + u.c + v.i; }\n"),
     # wide arrays filled exactly by a wide literal (DataSize through the H6-lite sizes): top level, member, 2-D row
     ("wide-exact-fit", "unsigned short a[2] = u\"ab\"; unsigned b[1] = U\"a\"; struct { unsigned short s[2]; char c; } c = {u\"ab\", 1};\n"
                        "unsigned short d[2][2] = {u\"ab\", u\"c\"}; unsigned e[2][1] = {U\"a\", U\"b\"}; unsigned short f[3] = u\"ab\";\n"
